@@ -50,5 +50,7 @@ class FileProxy(io.TextIOBase):
     def flush(self) -> None:
         buffer = self.__buffer
         if buffer:
-            self.__console.print("".join(buffer))
+            self.__console.print(
+                "".join(buffer), markup=False, emoji=False, highlight=False
+            )
             del buffer[:]
